@@ -22,11 +22,22 @@ Print Assumptions C08_wait_interrupted_immediately.
 
 Theorem C08_no_fallback_after_cancel : forall pos cfg (inner : layer) c w cr,
   let r := fst (inner c w) in let w1 := snd (inner c w) in
-  let w2 := ev_with_result w1 c KPolFailure pos (with_failure r) in
+  let w2 := pause (ev_with_result w1 c KPolFailure pos (with_failure r)) (fb_lsn_dur cfg) in
   is_failure (fb_fpol cfg) (pr_out r) = true -> is_canceled w2 c = Some cr ->
   fallback_layer pos cfg inner c w = (cr, w2).
 Proof. exact no_fallback_after_cancel. Qed.
 Print Assumptions C08_no_fallback_after_cancel.
+
+(* a cancellation that arrives while a fallback function runs is what the fallback layer reports: its result (whose error is the
+   cause, C08_cancel_result_is_cause), not the function's output *)
+Theorem C08_cancel_during_fallback_reported : forall pos cfg (inner : layer) c w cr,
+  let r := fst (inner c w) in let w1 := snd (inner c w) in
+  let w2 := pause (ev_with_result w1 c KPolFailure pos (with_failure r)) (fb_lsn_dur cfg) in
+  let w3 := pause w2 (fb_dur cfg) in
+  is_failure (fb_fpol cfg) (pr_out r) = true -> is_canceled w2 c = None -> is_canceled w3 c = Some cr ->
+  fallback_layer pos cfg inner c w = (cr, w3).
+Proof. exact cancel_during_fallback_reported. Qed.
+Print Assumptions C08_cancel_during_fallback_reported.
 
 Theorem C08_limiter_wait_interrupted : forall pos inst mw (inner inner' : layer) c w,
   let '(cfg, base, s) := nth inst (w_limiters w) (Smooth 1, 0, SSmooth 0) in
